@@ -400,45 +400,67 @@ def run_positive_number(schema):
     return out, rec, None
 
 
-def num_ok(schema, n):
-    """the numeric keyword family on a number (both the draft-4 boolean and the numeric exclusive forms)"""
-    mn, mx = schema.get("minimum"), schema.get("maximum")
-    en, ex, mo = schema.get("exclusiveMinimum"), schema.get("exclusiveMaximum"), schema.get("multipleOf")
-    isnum = lambda x: isinstance(x, (int, float)) and not isinstance(x, bool)  # noqa: E731
-    if isnum(mn) and not (mn < n if en is True else mn <= n):
-        return False
-    if isnum(en) and not en < n:
-        return False
-    if isnum(mx) and not (n < mx if ex is True else n <= mx):
-        return False
-    if isnum(ex) and not n < ex:
-        return False
-    if isnum(mo) and mo != 0 and (n / mo) != int(n / mo):
-        return False
-    return True
-
-
-def int_satisfiable(schema):
-    """is there an integer satisfying the numeric keywords? (window search; the generators keep bounds small)"""
-    return any(num_ok(schema, n) for n in range(-60, 61))
+SITES = ("vz", "vx", "vc")     # `_positive_number`: zero bound (F6), exclusive bounds (F7), crossing guard (F6c)
+KF_OF_SITE = {"vz": KF_ZERO, "vx": KF_EXCL, "vc": KF_UNSAT}
+NUM_REPAIRED = {"vz": "repaired", "vx": "repaired", "vc": "repaired"}
+# the other variant sites of the model (`Vs` in lean/SV/Model/C03.lean): repairs proposed in proposed_fixes/C03-*.diff,
+# detected on the tree by witness so that the correspondence follows whatever subset of them the tree carries
+OTHER_SITES = {"vl": "_positive_string:crossing-lengths (F34)", "va": "additionalProperties-arm:not-value (F35)",
+               "vt": "_get_template_schema:required (F36)", "vm": "_positive_object:minProperties (F37)",
+               "vf": "cover_schema_iter:false-schema (F40)"}
+TREE_VS = [{**NUM_REPAIRED, **{k: "asFound" for k in OTHER_SITES}}]      # set by detect_variants (run / replay)
 
 
 def detect_number_variants(chk):
+    """which variant of each defect site of `_positive_number` the tree exhibits, by witness on the real code"""
     out, _, _ = run_positive_number({"type": "integer", "minimum": 0, "maximum": 0})
     vz = "asFound" if out is not None and any(o["value"] == 1 for o in out) else "repaired"
     out, _, _ = run_positive_number({"type": "integer", "minimum": 5, "exclusiveMinimum": True})
     vx = "asFound" if out is not None and any(o["value"] in (2, 3) for o in out) else "repaired"
+    # F6c: no multiple of 3 in [1, 2]; and crossing inclusive bounds
+    out, _, _ = run_positive_number({"type": "integer", "minimum": 1, "maximum": 2, "multipleOf": 3})
+    out2, _, _ = run_positive_number({"type": "integer", "minimum": 3, "maximum": 1})
+    vc = "asFound" if (out is not None and any(o["value"] in (3, 0) for o in out)) or \
+        (out2 is not None and any(o["desc"] in ("minimum-value", "maximum-value") for o in out2)) else "repaired"
     chk.variants["_positive_number:zero-bound"] = vz
     chk.variants["_positive_number:exclusive-bound"] = vx
-    return vz, vx
+    chk.variants["_positive_number:crossing-guard"] = vc
+    return {"vz": vz, "vx": vx, "vc": vc}
 
 
-def positive_number_mechanism(chk, drv, schemas, mech, vz, vx):
+def detect_variants(chk):
+    """the variant vector of the tree: every site by its witness on the real code"""
+    vs = detect_number_variants(chk)
+    obj = {"type": "object", "properties": {"a": {"type": "integer"}}}
+    out, _, _ = run_cover({"type": "string", "minLength": 1, "maxLength": 0}, "P", "body")
+    vs["vl"] = "asFound" if out else "repaired"
+    out, _, _ = run_cover({**obj, "additionalProperties": {}}, "N", "body")
+    vs["va"] = "asFound" if any(o["desc"] == "unexpected-properties" for o in out) else "repaired"
+    _, rec, _ = run_cover({**obj, "required": ["a", "zz"]}, "P", "body")
+    first = next((c["req"] for c in rec.calls if c["kind"] == "schema" and isinstance(c["req"], dict)), {})
+    vs["vt"] = "repaired" if "zz" in (first.get("required") or []) else "asFound"
+    out, _, _ = run_cover({**obj, "minProperties": 1}, "P", "body")
+    vs["vm"] = "asFound" if any(o["value"] == {} for o in out) else "repaired"
+    out, _, _ = run_cover(False, "P", "body")
+    vs["vf"] = "asFound" if out else "repaired"
+    for k, name in OTHER_SITES.items():
+        chk.variants[name] = vs[k]
+    TREE_VS[0] = dict(vs)
+    return vs
+
+
+def attribution_variants(vs):
+    """the variant vectors the attribution of a wrong positive number needs: the tree's own, the three `_positive_number`
+    sites repaired, and the tree's with one of them flipped to repaired (single-site variants)"""
+    return [dict(vs), {**vs, **NUM_REPAIRED}] + [{**vs, site: "repaired"} for site in SITES]
+
+
+def positive_number_mechanism(chk, drv, schemas, mech, vs):
     runs = []
     for s in schemas:
         out, rec, err = run_positive_number(s)
         runs.append((s, out, rec, err))
-    models = drv.batch([("posnum", {"schema": enc(s), "orc": wire_orc(rec) if err is None else [], "vz": vz, "vx": vx,
+    models = drv.batch([("posnum", {"schema": enc(s), "orc": wire_orc(rec) if err is None else [], **vs,
                                     "judge": [enc(o["value"]) for o in out] if out is not None else []})
                         for s, out, rec, err in runs])
     verdicts = iter([m.get("valid", []) for (s, out, rec, err), m in zip(runs, models) if out is not None])
@@ -470,37 +492,92 @@ def positive_number_mechanism(chk, drv, schemas, mech, vz, vx):
                 pending.append((s, out, rec, o))
     reqs = []
     for s, out, rec, o in pending:
-        for a, b in (("repaired", "repaired"), ("asFound", "repaired"), ("repaired", "asFound"), ("asFound", "asFound")):
-            reqs.append(("posnum", {"schema": enc(s), "orc": wire_orc(rec), "vz": a, "vx": b}))
+        for v in attribution_variants(vs):
+            reqs.append(("posnum", {"schema": enc(s), "orc": wire_orc(rec), **v}))
     outs = iter(drv.batch(reqs))
     for s, out, rec, o in pending:
-        m_rr, m_ar, m_ra, m_aa = next(outs), next(outs), next(outs), next(outs)
-        sig = number_signature(s, o, m_rr, m_ar, m_ra, m_aa) or "C03:_positive_number:invalid-positive-value"
+        ms = [next(outs) for _ in range(2 + len(SITES))]
+        sig = number_signature(vs, o, ms) or "C03:_positive_number:invalid-positive-value"
         chk.violation(sig, f"_positive_number labels {o['value']!r} ('{o['text']}') positive but it violates the schema",
                       {"mechanism": "positive_number", "schema": s, "value": o["value"], "description": o["text"],
                        "impl": brief(out)})
 
 
-def number_signature(schema, o, m_rr, m_ar, m_ra, m_aa=None):
-    """attribute an invalid positive number to F6 / F7 / the unsatisfiable-schema case with the single-site variants
-    of the model ((zero, excl) = (repaired, repaired), (asFound, repaired), (repaired, asFound))"""
+def attribute_site(vs, emits):
+    """vs: the tree's variants; emits: [tree, all-repaired, flip vz, flip vx, flip vc] -> does that variant of
+    `_positive_number` emit the wrong value?  -> the defect site the value is due to, or None when the catalogued sites
+    do not explain it (the fully repaired generator emits it too, or not even the tree's own variant does)."""
+    tree, repaired, flips = emits[0], emits[1], dict(zip(SITES, emits[2:]))
+    if not tree or repaired:
+        return None
+    found = [site for site in ("vx", "vz", "vc") if vs[site] == "asFound"]
+    for site in found:
+        if not flips[site]:          # repairing this one site alone removes the value
+            return site
+    return found[0] if found else None
+
+
+def number_signature(vs, o, ms):
+    """attribute an invalid positive number to F6 / F7 / F6c with the single-site variants of the Lean model"""
     def has(m):
         return any(g["mode"] == "positive" and g["desc"] == o["desc"] and py_same(dec(g["value"]), o["value"])
                    for g in m.get("out", []))
-    if m_rr.get("status") != "ok":
+    if any(m.get("status") != "ok" for m in ms):
         return None
-    if not has(m_rr):
-        if has(m_ar) and not has(m_ra):
-            return KF_ZERO
-        if has(m_ra) or (m_aa is not None and has(m_aa)):
-            return KF_EXCL
-        return None          # no variant of the model emits it: not one of the catalogued numeric defects
+    site = attribute_site(vs, [has(m) for m in ms])
+    return KF_OF_SITE[site] if site else None
+
+
+def py_boundary(schema, v):
+    """transcription of the boundary part of coverage._positive_number with the three defect sites switchable; used ONLY to
+    name the site behind a wrong value when the schema has fractional keywords (outside the integer-valued Lean model)"""
+    minimum, maximum = schema.get("minimum"), schema.get("maximum")
+    en, ex, mo = schema.get("exclusiveMinimum"), schema.get("exclusiveMaximum"), schema.get("multipleOf")
+    if v["vx"] == "asFound":
+        minimum = en + 1 if en is not None else minimum
+        maximum = ex - 1 if ex is not None else maximum
+    else:
+        if isinstance(en, bool):
+            minimum = minimum + 1 if en and minimum is not None else minimum
+        elif en is not None:
+            minimum = en + 1 if minimum is None else max(minimum, en + 1)
+        if isinstance(ex, bool):
+            maximum = maximum - 1 if ex and maximum is not None else maximum
+        elif ex is not None:
+            maximum = ex - 1 if maximum is None else min(maximum, ex - 1)
+    absent = (lambda b: not b) if v["vz"] == "asFound" else (lambda b: b is None)
+    guard = v["vc"] == "repaired"
+    out, seen = [], set()
+    if minimum is not None:
+        smallest = cov.closest_multiple_greater_than(minimum, mo) if mo is not None else minimum
+        if not guard or maximum is None or smallest <= maximum:
+            seen.add(smallest)
+            out.append((smallest, "minimum-value"))
+        larger = smallest + mo if mo is not None else minimum + 1
+        if larger not in seen and (absent(maximum) or larger <= maximum):
+            seen.add(larger)
+            out.append((larger, "near-boundary-number"))
+    if maximum is not None:
+        largest = maximum - (maximum % mo) if mo is not None else maximum
+        if largest not in seen and (not guard or minimum is None or largest >= minimum):
+            seen.add(largest)
+            out.append((largest, "maximum-value"))
+        smaller = largest - mo if mo is not None else maximum - 1
+        if smaller not in seen and (smaller > 0 and (minimum is None or smaller >= minimum)):
+            out.append((smaller, "near-boundary-number"))
+    return out
+
+
+def py_number_site(sub, o):
+    """the same attribution on the Python transcription (fractional keywords)"""
+    vs = TREE_VS[0]
+    if not isinstance(o["value"], (int, float)) or isinstance(o["value"], bool):
+        return None
     try:
-        if not int_satisfiable(schema):
-            return KF_UNSAT
+        emits = [any(d == o["desc"] and py_same(x, o["value"]) for x, d in py_boundary(sub, v)) for v in attribution_variants(vs)]
     except Exception:
-        pass
-    return None
+        return None
+    return attribute_site(vs, emits)
 
 
 # ---- mechanism 2: cover_schema_iter ----------------------------------------------------------------------------------
@@ -553,8 +630,8 @@ def same_calls(model_calls, rec):
     return True
 
 
-def cover_request(schema, orc, modes_key, location, vz, vx):
-    return ("cover", {"schema": enc(schema), "orc": orc, "vz": vz, "vx": vx, "location": location,
+def cover_request(schema, orc, modes_key, location, vs):
+    return ("cover", {"schema": enc(schema), "orc": orc, **vs, "location": location,
                       "pos": "P" in modes_key, "neg": "N" in modes_key})
 
 
@@ -606,19 +683,19 @@ def contains_key(schema, keys):
 
 
 def bounds_unsatisfiable(schema):
-    """some (sub-)schema has crossing bounds (minLength > maxLength, minItems > maxItems, minimum > maximum …)"""
+    """some (sub-)schema has crossing length bounds (minLength > maxLength, minItems > maxItems, minProperties >
+    maxProperties).  Numeric bounds are NOT part of this shape: since 2d700c38 `_positive_number` tests every boundary value
+    against the opposite bound, so a wrong number under crossing numeric bounds would be a new defect."""
     bad = False
 
     def fn(n):
         nonlocal bad
         if not isinstance(n, dict):
             return
-        for lo, hi in (("minLength", "maxLength"), ("minItems", "maxItems"), ("minProperties", "maxProperties"),
-                       ("minimum", "maximum"), ("exclusiveMinimum", "exclusiveMaximum"), ("minimum", "exclusiveMaximum"),
-                       ("exclusiveMinimum", "maximum")):
+        for lo, hi in (("minLength", "maxLength"), ("minItems", "maxItems"), ("minProperties", "maxProperties")):
             a, b = n.get(lo), n.get(hi)
             if isinstance(a, (int, float)) and isinstance(b, (int, float)) and not isinstance(a, bool) and not isinstance(b, bool):
-                if a > b or (a == b and "exclusive" in (lo + hi).lower() and lo != hi):
+                if a > b:
                     bad = True
     G._walk(schema, fn)
     return bad
@@ -635,11 +712,16 @@ def embedded(value, container):
     return False
 
 
-def related(ans, value):
+def related(ans, value, desc=""):
     """the emitted value was derived from this oracle answer (it contains it, is a part of it, shares members with it,
-    or is the answer doubled: `unique + unique`)"""
+    is the answer doubled: `unique + unique`, or — in the minLength / maxLength arms, which shrink or pad an answer
+    obtained without the length keywords — is the answer cut by `[:max_length]` / padded by `.ljust(max_length, "0")`)"""
     if embedded(ans, value) or embedded(value, ans):
         return True
+    if desc.split(":")[-1] in ("smaller-than-min-length", "larger-than-max-length") and isinstance(ans, (str, list)) \
+            and type(ans) is type(value):
+        if value == ans[:len(value)] or (isinstance(ans, str) and value.startswith(ans)):
+            return True
     if isinstance(ans, dict) and isinstance(value, dict):
         return any(k in ans and py_same(ans[k], v) for k, v in value.items())
     if isinstance(ans, list) and isinstance(value, list):
@@ -655,7 +737,7 @@ def unsound_oracle_call(rec, o):
         if c["kind"] != "schema" or "val" not in c["ans"] or not isinstance(c["req"], dict):
             continue
         ans = c["ans"]["val"]
-        if not related(ans, o["value"]):
+        if not related(ans, o["value"], o.get("desc", "")):
             continue
         if py_valid(c["req"], ans) is False:
             req = c["req"]
@@ -703,23 +785,8 @@ def branches_of(schema):
 
 
 def erase_side(schema, side):
-    keys = {"max": ("maxLength", "maxItems", "maxProperties", "maximum", "exclusiveMaximum"),
-            "min": ("minLength", "minItems", "minProperties", "minimum", "exclusiveMinimum")}[side]
+    keys = {"max": ("maxLength", "maxItems", "maxProperties"), "min": ("minLength", "minItems", "minProperties")}[side]
     return erase(schema, keys)
-
-
-def has_fractional_keyword(schema):
-    fr = False
-
-    def fn(n):
-        nonlocal fr
-        if isinstance(n, dict):
-            for k in ("minimum", "maximum", "exclusiveMinimum", "exclusiveMaximum", "multipleOf"):
-                v = n.get(k)
-                if isinstance(v, float) and v != int(v):
-                    fr = True
-    G._walk(schema, fn)
-    return fr
 
 
 def json_type(v):
@@ -869,11 +936,9 @@ def shape_of_violation(schema, o, rec):
         if has_integer_type_with_fraction(schema, value) and "integer" in types_of(sdict) \
                 and py_valid({**sdict, "type": "number"}, value) is True:
             return "non-integer-boundary-for-integer-type"
-        if contains_key(schema, ("exclusiveMinimum", "exclusiveMaximum")) and has_fractional_keyword(schema):
-            return "number-exclusive-bound-misread"   # integer-valued keywords are attributed through the model instead
-        if has_fractional_keyword(schema) and inner == "near-boundary-number" and sdict.get("maximum") == 0 \
-                and isinstance(value, (int, float)) and value > 0:
-            return "number-zero-bound-treated-as-absent"
+        site = py_number_site(sdict, {**o, "desc": inner})
+        if site:        # fractional keywords (integer-valued ones are attributed through the Lean model before this)
+            return f"number-site:{site}"
     if top.startswith("object") or top == "valid-object":
         req = sdict.get("required")
         if isinstance(req, list) and isinstance(props, dict) or isinstance(req, list) and props is None:
@@ -928,7 +993,7 @@ def erase_top(sdict, kw):
     return {k: v for k, v in sdict.items() if k != kw}
 
 
-def cover_mechanism(chk, drv, cases, vz, vx):
+def cover_mechanism(chk, drv, cases, vs):
     """cases: [(mechanism, schema, modes_key, location)] — one driver batch per phase for all mechanisms together"""
     runs = []
     for mech, schema, mk, loc in cases:
@@ -941,7 +1006,7 @@ def cover_mechanism(chk, drv, cases, vz, vx):
         except Unmodelled:
             orc, modelled = [], False
         runs.append((schema, mk, loc, out, rec, err, orc, modelled, LOSSY[0] != before, mech))
-    reqs = [cover_request(r[0], r[6], r[1], r[2], vz, vx) for r in runs if r[7]]
+    reqs = [cover_request(r[0], r[6], r[1], r[2], vs) for r in runs if r[7]]
     models = iter(drv.batch(reqs))
     judge_items = [(r[0], [o["value"] for o in r[3]]) for r in runs if _encodable(r[3])]
     judge_descs = [[o["desc"] if o["mode"] == "negative" and (o["loc"] or "").count("/") == 1 and isinstance(r[0], dict) else None
@@ -988,7 +1053,8 @@ def cover_mechanism(chk, drv, cases, vz, vx):
                 # rejected, but not for the reason the description gives
                 chk.feature(f"{mech}:negative-not-as-described")
                 upath = unsound_oracle_call(rec, o)
-                shape = ("draft4-boolean-exclusive-bound-emitted-as-value" if isinstance(o["value"], bool)
+                shape = ("draft4-boolean-exclusive-bound-emitted-as-value"
+                         if isinstance(o["value"], bool) and o["desc"] in ("greater-than-maximum", "smaller-than-minimum")
                          else oracle_shape(upath) if upath else f"negative-{o['desc']}-not-as-described")
                 chk.violation(f"C03:cover_schema_iter:{shape}",
                               f"cover_schema_iter describes {o['value']!r} as '{o['text']}' (location {o['loc']}) but the value "
@@ -998,7 +1064,7 @@ def cover_mechanism(chk, drv, cases, vz, vx):
             if ok:
                 continue
             pending.append((schema, mk, loc, o, orc if modelled else None, rec))
-    resolve_cover_violations(chk, drv, pending)
+    resolve_cover_violations(chk, drv, pending, vs)
 
 
 def _encodable(out):
@@ -1010,7 +1076,7 @@ def _encodable(out):
         return False
 
 
-def resolve_cover_violations(chk, drv, pending):
+def resolve_cover_violations(chk, drv, pending, vs):
     """give every label violation its signature; positive numbers (also nested in objects) are attributed to F6/F7/F6c
     with the single-site variants of the `_positive_number` model on the sub-schema that rejects them"""
     reqs, numeric = [], []
@@ -1023,22 +1089,20 @@ def resolve_cover_violations(chk, drv, pending):
         if oo["desc"] in ("minimum-value", "maximum-value", "near-boundary-number") and isinstance(sub, dict) \
                 and isinstance(oo["value"], (int, float)) and not isinstance(oo["value"], bool):
             try:
-                for a, b in (("repaired", "repaired"), ("asFound", "repaired"), ("repaired", "asFound"), ("asFound", "asFound")):
-                    reqs.append(("posnum", {"schema": enc(sub), "orc": [{"val": 0}], "vz": a, "vx": b}))
-                numeric.append((idx, sub, oo))
+                batch = [("posnum", {"schema": enc(sub), "orc": [{"val": 0}], **v}) for v in attribution_variants(vs)]
             except Unmodelled:
-                pass
+                continue
+            reqs += batch
+            numeric.append((idx, sub, oo))
     outs = iter(drv.batch(reqs))
     sigs = {}
     for idx, sub, oo in numeric:
-        m_rr, m_ar, m_ra, m_aa = next(outs), next(outs), next(outs), next(outs)
-        sigs[idx] = number_signature(sub, oo, m_rr, m_ar, m_ra, m_aa)
+        sigs[idx] = number_signature(vs, oo, [next(outs) for _ in range(2 + len(SITES))])
     for idx, (schema, mk, loc, o, orc, rec) in enumerate(pending):
         sig = sigs.get(idx)
         if sig is None:
             shape = shape_of_violation(schema, o, rec)
-            sig = (KF_EXCL if shape == "number-exclusive-bound-misread" else
-                   KF_ZERO if shape == "number-zero-bound-treated-as-absent" else f"C03:cover_schema_iter:{shape}")
+            sig = KF_OF_SITE[shape.split(":")[1]] if shape.startswith("number-site:") else f"C03:cover_schema_iter:{shape}"
         what = (f"cover_schema_iter labels {o['value']!r} ('{o['text']}', location {o['loc']}) {o['mode']} but the schema "
                 f"{'rejects' if o['mode'] == 'positive' else 'accepts'} it")
         chk.violation(sig, what, {"mechanism": "cover", "schema": schema, "modes": mk, "location": loc,
@@ -1378,7 +1442,7 @@ def run(chk):
     tm = Timer(chk)
     G.selfcheck(chk, 150 if not chk.thorough else 1500)
     tm.lap("selfcheck")
-    vz, vx = detect_number_variants(chk)
+    vs = detect_variants(chk)
     chk.assumptions += [
         "oracle contract: a value returned by CoverageContext.generate_from_schema(s) is valid for s (hypothesis-jsonschema) and a "
         "_negative_type draw has the JSON type of its strategy (Hypothesis); the recorded answers of the real run are handed to "
@@ -1396,17 +1460,23 @@ def run(chk):
     chk.proved += [
         "case_labels_repaired: repaired _iter_coverage_cases labels every case and every component consistently with its contents "
         "(all operations / mode sets / well-formed value streams); case_labels_asFound_partial (snapshot, away from F8)",
-        "cover_numeric_labels: end-to-end label soundness of cover_schema_iter on every satisfiable plain integer/number schema "
-        "(repaired generator, all modes, oracle contract)",
-        "positive_number_valid / positive_number_partial (F6, F7 sites), positive_string_valid (non-crossing length bounds), "
+        "cover_numeric_labels: end-to-end label soundness of cover_schema_iter on EVERY plain integer/number schema, satisfiable or "
+        "not (all three _positive_number sites repaired, all modes, oracle contract)",
+        "positive_number_valid (no satisfiability hypothesis: every boundary value is tested against both effective bounds) / "
+        "positive_number_partial (F6 zero-bound, F7 exclusive-bound, F6c crossing-guard sites in any mix) / "
+        "positive_number_valid_satisfiable, positive_string_valid (with the crossing guard of proposed_fixes/C03-F34.diff: every string "
+        "schema) / positive_string_partial (the code as found: non-crossing length bounds), "
         "numeric_negatives_as_described, cover_positive_only / cover_negative_only",
-        "kernel-checked counterexamples: F6, F7 (boolean and numeric), F7b, F8, and *_full_false for snapshot and repaired variants",
+        "kernel-checked counterexamples: F6, F7 (boolean and numeric), F6c (no multiple in range, crossing through the exclusive "
+        "step), F7b, F8, F34, F35, F36, F37, F40, and *_full_false for each _positive_number site alone, the snapshot and the repaired "
+        "variants, positive_string_full_false_asFound",
     ]
     chk.partial += [
         "label soundness of the array / object / enum / const / pattern / format arms and of anyOf/oneOf/allOf descents is not "
         "proved (false for the descents: F9a/F9b); these arms are modelled, tied by correspondence and judged by replay",
         "the repaired case-level statement needs WF; without it the full statement is false (case_labels_full_false_repaired: F8b/F8c)",
-        "repaired _positive_number still mislabels on schemas no integer satisfies (positive_number_full_false_repaired: F6c)",
+        "fully repaired _positive_number is sound on plain numeric schemas only: a sibling keyword outside the numeric family "
+        "(`not`, combinators) can still reject a boundary value (positive_number_full_false_repaired; on the real code: F9b)",
     ]
     chk.sampled_only += [
         "schemas with fractional numeric keywords, pattern+length combinations (update_quantifier), allOf with several members, "
@@ -1415,7 +1485,7 @@ def run(chk):
         "stringification/serialisation of values into query/header/cookie/path containers (F9c is judged on the real containers)",
     ]
     grid = list(numeric_grid(chk.thorough))
-    positive_number_mechanism(chk, drv, grid, "positive_number:grid", vz, vx)
+    positive_number_mechanism(chk, drv, grid, "positive_number:grid", vs)
     tm.lap("positive_number:grid")
     chk.notes.append(f"positive_number:grid is exhaustive over {len(grid)} schemas")
     # cover_schema_iter: exhaustive small-scope grids per keyword family (sliced in the quick tier) + random schemas
@@ -1438,7 +1508,7 @@ def run(chk):
               for s_ in GEN.random_sane(rng, chk.budget(350, 6000), depth=2 if not chk.thorough else 3)]
     cases += [("cover:random-odd", s_, rng.choice(["P", "N", "PN", "PN"]), rng.choice(locs))
               for s_ in GEN.random_schemas(rng, chk.budget(60, 2000), depth=2)]
-    cover_mechanism(chk, drv, cases, vz, vx)
+    cover_mechanism(chk, drv, cases, vs)
     tm.lap("cover")
     # builder._iter_coverage_cases
     vb = detect_body_variant(chk)
@@ -1467,9 +1537,9 @@ def replay(chk, data):
         out, rec, err = run_positive_number(s)
         print("schema:", json.dumps(s))
         print("impl now:", brief(out) if out is not None else repr(err))
-        vz, vx = detect_number_variants(chk)
-        m = drv.one("posnum", {"schema": enc(s), "orc": wire_orc(rec), "vz": vz, "vx": vx})
-        print(f"model ({vz},{vx}):", [[g["mode"][:3], dec(g["value"]), g["desc"]] for g in m.get("out", [])], m.get("status"))
+        vs = detect_variants(chk)
+        m = drv.one("posnum", {"schema": enc(s), "orc": wire_orc(rec), **vs})
+        print(f"model {vs}:", [[g["mode"][:3], dec(g["value"]), g["desc"]] for g in m.get("out", [])], m.get("status"))
         if out is not None:
             print("valid (Lean spec):", judge_batch(chk, drv, [(s, [o["value"] for o in out])])[0])
     elif mech == "cover":
@@ -1478,10 +1548,10 @@ def replay(chk, data):
         print("schema:", json.dumps(s), "modes:", mk, "location:", loc)
         print("impl now:", brief(out), "" if err is None else f"raised {err!r}")
         print("oracle:", [(c["req"], c["ans"]) for c in rec.calls])
-        vz, vx = detect_number_variants(chk)
+        vs = detect_variants(chk)
         try:
-            m = drv.one(*cover_request(s, wire_orc(rec), mk, loc, vz, vx))
-            print(f"model ({vz},{vx}) status={m.get('status')}:",
+            m = drv.one(*cover_request(s, wire_orc(rec), mk, loc, vs))
+            print(f"model {vs} status={m.get('status')}:",
                   [[g["mode"][:3], dec(g["value"]), g["desc"], g["loc"]] for g in m.get("out", [])])
         except Unmodelled as e:
             print("model: outside the wire format:", e)
